@@ -54,7 +54,16 @@ def canon(x, depth=0):
         return "set{%s}" % ",".join(sorted(canon(i, depth + 1) for i in x))
     d = getattr(x, "__dict__", None)
     if d is not None and not inspect.isroutine(x) and not inspect.isclass(x) and not inspect.ismodule(x):
-        return "%s<%s>" % (type(x).__name__, ",".join("%s=%s" % (k, canon(v, depth + 1)) for k, v in sorted(d.items())))
+        extra = ""
+        if type(x).__name__ == "_Kit" and depth == 0:      # what the kit hands out now belongs to its observable state
+            views = []
+            for acc in ("cowbell", "acoustic_snare", "hand_clap"):
+                try:
+                    views.append("%s()=%s" % (acc, canon(getattr(x, acc)(), depth + 1)))
+                except Exception as e:
+                    views.append("%s()=raised:%s" % (acc, type(e).__name__))
+            extra = "|" + ",".join(views)
+        return "%s<%s%s>" % (type(x).__name__, ",".join("%s=%s" % (k, canon(v, depth + 1)) for k, v in sorted(d.items())), extra)
     return "%s:?" % type(x).__name__
 
 
@@ -232,6 +241,16 @@ def class_table():
     for nm_, cls in (("Instrument", Instrument), ("Piano", Piano), ("Guitar", Guitar), ("MidiInstrument", MidiInstrument)):
         T[nm_] = (cls, [lambda o: o.set_range((Note("C", 2), Note("C", 5))), lambda o: setattr(o, "name", "x"),
                         lambda o: setattr(o, "tuning", "tu"), lambda o: setattr(o, "clef", "alto")], None)
+    # a percussion kit hands out Notes through accessor methods: what another kit (or a later call) hands out must not depend
+    # on what was done to a Note handed out before.  The kit's view includes what two of its accessors return now.
+    from mingus.containers.instrument import MidiPercussionInstrument
+    class _Kit(MidiPercussionInstrument):
+        pass
+    def _kit():
+        k = _Kit()
+        return k
+    T["MidiPercussionInstrument"] = (_kit, [lambda o: o.cowbell().set_channel(9), lambda o: o.cowbell().octave_up(), lambda o: o.acoustic_snare().set_velocity(3),
+                                            lambda o: o.cowbell().augment(), lambda o: o.hand_clap().transpose("3"), lambda o: setattr(o, "name", "kit")], None)
     T["MidiTrack"] = (lambda: MidiTrack(120), [lambda o: o.play_Note(Note("C", 4)), lambda o: o.stop_Note(Note("C", 4)), lambda o: o.set_deltatime(10),
                       lambda o: o.set_tempo(90), lambda o: o.set_instrument(1, 20), lambda o: o.play_Bar(_abar()), lambda o: o.reset(),
                       lambda o: o.set_track_name("n"), lambda o: o.play_Track(_atrack())], None)
